@@ -468,6 +468,11 @@ class SimReactor(Clock):
         return p
 
     def alloc_port(self):
+        plan = getattr(self, "port_plan", None)
+        while plan:
+            p_ = plan.pop(0)       # (a case may say which port numbers the kernel hands out first)
+            if p_ not in self.ports:
+                return p_
         self.next_port += 1
         while self.next_port in self.ports:
             self.next_port += 1
